@@ -351,7 +351,9 @@ def run_one(tape, opts):
             pass
         for s, h in saved_sig.items():
             signal.signal(s, h)
-        rt._log_observer.flushErrors()
+        lo = getattr(rt, "_log_observer", None)     # harness hygiene between runs, not part of any oracle
+        if lo is not None:
+            lo.flushErrors()
         gc.collect()
         if gc_was:
             gc.enable()
